@@ -373,12 +373,12 @@ fn depth(a: &Args) {
 fn counts(tier: &str) -> Vec<(&'static str, u64)> {
     if tier == "extended" {
         // the search that runs when an anchor / proof obligation is broken and the quick search found nothing
-        return vec![("glif", 60_000), ("ufo", 20_000), ("ds", 10_000), ("api", 40_000), ("names", 40_000)];
+        return vec![("glif", 60_000), ("ufo", 20_000), ("ds", 10_000), ("api", 40_000), ("names", 40_000), ("values", 60_000)];
     }
     if tier == "thorough" {
-        vec![("glif", 900_000), ("ufo", 240_000), ("ds", 200_000), ("api", 260_000), ("names", 400_000)]
+        vec![("glif", 900_000), ("ufo", 240_000), ("ds", 200_000), ("api", 260_000), ("names", 400_000), ("values", 400_000)]
     } else {
-        vec![("glif", 9_000), ("ufo", 3_000), ("ds", 2_000), ("api", 3_000), ("names", 3_000)]
+        vec![("glif", 9_000), ("ufo", 3_000), ("ds", 2_000), ("api", 3_000), ("names", 3_000), ("values", 4_000)]
     }
 }
 
